@@ -68,3 +68,213 @@ def replay(rep):
         return 1 if rc == 1 else 0
     print('no replayer for this obligation')
     return 0
+
+
+# ---------------------------------------------------------------------------
+# Arithmetic witness search (C01/C02): candidate queries with an exact oracle
+# (python Fractions + a dict of base-unit exponents), run on the real rink-core.
+from fractions import Fraction as _F
+
+CORE_DIR = os.path.join(ROOT, 'replay', 'core')
+QUERY_BIN = os.path.join(WORK, 'replay-core-target', 'release', 'vx-replay-query')
+_core_built = [False]
+
+
+def build_core():
+    if _core_built[0]:
+        return 0
+    shutil_copy = os.path.join(REPO, 'Cargo.lock')
+    try:
+        import shutil
+        shutil.copy(shutil_copy, os.path.join(CORE_DIR, 'Cargo.lock'))
+    except Exception:
+        pass
+    rc, so, se, dt = run(['cargo', 'build', '--release', '--offline'], cwd=CORE_DIR,
+                         env=env_offline({'CARGO_TARGET_DIR': os.path.join(WORK, 'replay-core-target')}), timeout=1800)
+    _core_built[0] = (rc == 0)
+    return rc
+
+
+def run_queries(lines, timeout=20):
+    """-> list of (line, text, raw or None) ; text starts with PANIC / ERR / reply"""
+    out = []
+    for ln in lines:
+        rc, so, se, dt = run([QUERY_BIN, ln], timeout=timeout)
+        body = so.split('\n', 1)[1] if '\n' in so else so
+        if rc == 124:
+            body = 'TIMEOUT'
+        raw = None
+        for l in body.splitlines():
+            if l.startswith('RAW '):
+                raw = l[4:]
+        out.append((ln, body.strip(), raw))
+    return out
+
+
+def _lit(x, unit=''):
+    f = _F(x)
+    s = '(%d|%d)' % (f.numerator, f.denominator) if f.denominator != 1 else '(%d)' % f.numerator
+    return '(%s %s)' % (s, unit) if unit else s
+
+
+def _trunc(f):
+    return int(f) if f >= 0 else -int(-f)
+
+
+def _expect(op, a, b, da, db):
+    """exact result (Fraction, dims) or 'ERR'"""
+    def scale(d, k):
+        return {u: e * k for u, e in d.items() if e * k != 0}
+    if op == 'pow':
+        if b.denominator != 1 or db:
+            return None
+        e = int(b)
+        if a == 0 and e < 0:
+            return 'ERR'
+        return (a ** e, scale(da, e))
+    if op in ('shl', 'shr'):
+        if db:
+            return 'ERR'
+        if b.denominator != 1:
+            return 'ERR'
+        k = int(b) if op == 'shl' else -int(b)
+        return (a * (_F(2) ** k), dict(da))
+    if op == 'rem':
+        if da != db:
+            return 'ERR'
+        if b == 0:
+            return 'ERR'
+        return (a - b * _trunc(a / b), dict(da))
+    if op in ('and', 'or', 'xor'):
+        if da or db or a.denominator != 1 or b.denominator != 1:
+            return 'ERR'
+        x, y = int(a), int(b)
+        return (_F({'and': x & y, 'or': x | y, 'xor': x ^ y}[op]), {})
+    if op in ('add', 'sub'):
+        if da != db:
+            return 'ERR'
+        return (a + b if op == 'add' else a - b, dict(da))
+    if op == 'mul':
+        d = dict(da)
+        for u, e in db.items():
+            d[u] = d.get(u, 0) + e
+        return (a * b, {u: e for u, e in d.items() if e})
+    if op == 'div':
+        if b == 0:
+            return 'ERR'
+        d = dict(da)
+        for u, e in db.items():
+            d[u] = d.get(u, 0) - e
+        return (a / b, {u: e for u, e in d.items() if e})
+    if op == 'neg':
+        return (-a, dict(da))
+    return None
+
+
+_SYM = {'pow': '^', 'shl': '<<', 'shr': '>>', 'rem': 'mod', 'and': 'and', 'or': 'or', 'xor': 'xor', 'add': '+', 'sub': '-', 'mul': '*', 'div': '/'}
+_VALS = [_F(0), _F(1), _F(-1), _F(2), _F(-2), _F(3), _F(-3), _F(7), _F(-7), _F(1, 2), _F(-2, 3), _F(5, 2), _F(-7, 2), _F(12), _F(255), _F(-256)]
+_UNITS = [('', {}), ('m', {'m': 1}), ('m^2/s', {'m': 2, 's': -1}), ('s/m', {'m': -1, 's': 1}), ('kg m', {'kg': 1, 'm': 1}), ('1/m', {'m': -1})]
+
+
+def _ops_for_slot(slot):
+    s = (slot or '').lower()
+    table = [('pow', ['pow']), ('root', ['pow']), ('shl', ['shl']), ('shr', ['shr']), ('rem', ['rem']), ('::and', ['and']), ('::or', ['or']), ('xor', ['xor']),
+             ('add', ['add']), ('sub', ['sub']), ('mul', ['mul', 'div', 'pow']), ('div', ['div', 'rem']), ('neg', ['neg', 'sub']), ('invert', ['div', 'pow']),
+             ('btree_merge', ['mul', 'div']), ('dimensionality', ['mul', 'div', 'pow'])]
+    ops = []
+    for key, o in table:
+        if key in s:
+            ops += [x for x in o if x not in ops]
+    return ops or ['pow', 'shl', 'shr', 'rem', 'and', 'or', 'xor', 'add', 'sub', 'mul', 'div', 'neg']
+
+
+def _dims_str(d):
+    return ','.join('%s:%d' % (u, d[u]) for u in sorted(d))
+
+
+def _arith_witness(o, budget=400):
+    if build_core() != 0:
+        return None
+    ops = _ops_for_slot(o.get('slot'))
+    tried = 0
+    for op in ops:
+        for (ua, da) in _UNITS:
+            for (ub, db) in (_UNITS if op in ('mul', 'div', 'add', 'sub', 'rem') else [('', {})]):
+                for a in _VALS:
+                    for b in (_VALS if op != 'neg' else [_F(0)]):
+                        if op in ('pow', 'shl', 'shr') and abs(b) > 12:
+                            continue
+                        exp = _expect(op, a, b, da, db)
+                        if exp is None:
+                            continue
+                        q = ('-%s' % _lit(a, ua)) if op == 'neg' else '%s %s %s' % (_lit(a, ua), _SYM[op], _lit(b, ub))
+                        tried += 1
+                        if tried > budget:
+                            return None
+                        (ln, text, raw) = run_queries([q])[0]
+                        bad = None
+                        if text.startswith('PANIC') or text.startswith('TIMEOUT'):
+                            bad = text.splitlines()[0]
+                        elif exp == 'ERR':
+                            if not text.startswith('ERR'):
+                                bad = 'expected an error, got: ' + text.splitlines()[0]
+                        else:
+                            val, dims = exp
+                            want = '%d/%d | %s' % (val.numerator, val.denominator, _dims_str(dims))
+                            if raw is None:
+                                bad = 'expected %s, got: %s' % (want, text.splitlines()[0])
+                            else:
+                                # the dimension names come back in the database's spelling of base units
+                                got_val, got_dims = raw.split(' | ') if ' | ' in raw else (raw.rstrip(' |'), '')
+                                if got_val.strip() != '%d/%d' % (val.numerator, val.denominator) or _norm_dims(got_dims) != _dims_str(dims):
+                                    bad = 'expected RAW %s, got RAW %s' % (want, raw)
+                        if bad:
+                            return {'replayer': 'query', 'input': {'query': q, 'expected': 'ERR' if exp == 'ERR' else want}, 'output': text, 'why': bad,
+                                    'cmd': '%s %r' % (QUERY_BIN, q)}
+    return None
+
+
+def _norm_dims(s):
+    m = {'meter': 'm', 'second': 's', 'kilogram': 'kg', 'gram': 'g'}
+    parts = []
+    for p in [x for x in s.strip().split(',') if x]:
+        u, e = p.rsplit(':', 1)
+        parts.append((m.get(u, u), int(e)))
+    return ','.join('%s:%d' % (u, e) for u, e in sorted(parts))
+
+
+_alloc_find = find_witness
+
+
+def find_witness(o, rep):  # noqa: F811
+    if o.get('unit') == 'alloc':
+        return _alloc_witness(o)
+    if o.get('unit') in ('arith', 'dims', 'unitlist', 'value', 'evalops'):
+        return _arith_witness(o)
+    return None
+
+
+_alloc_replay = replay
+
+
+def replay(rep):  # noqa: F811
+    w = rep.get('replay') or {}
+    if w.get('replayer') == 'query':
+        if build_core() != 0:
+            print('cannot build the replay crate')
+            return 0
+        q = rep['input']['query']
+        (ln, text, raw) = run_queries([q])[0]
+        print('> ' + q)
+        print(text)
+        print('expected: ' + str(rep['input'].get('expected')))
+        exp = rep['input'].get('expected')
+        bad = text.startswith('PANIC') or text.startswith('TIMEOUT') or (exp == 'ERR' and not text.startswith('ERR')) or (exp != 'ERR' and (raw is None or _norm_raw(raw) != _norm_raw(exp)))
+        print('replay: %s' % ('violation reproduced on the real code' if bad else 'not reproduced'))
+        return 1 if bad else 0
+    return _alloc_replay(rep)
+
+
+def _norm_raw(r):
+    v, d = (r.split(' | ') + [''])[:2] if ' | ' in r else (r.rstrip(' |'), '')
+    return v.strip() + ' | ' + _norm_dims(d)
